@@ -1255,10 +1255,8 @@ fn pfx(depth: u32) -> &'static str {
 fn desc_expr(e: &E, depth: u32, pos: &str, d: &mut Desc, specs: &[TableSpec]) {
     let p = pfx(depth);
     let sub_form = |name: &str, q: &Query| -> String {
-        let mut f = format!("{}{}", p, name);
-        if pos == "select_list" {
-            f.push_str("/select_list");
-        } else if name == "scalar_subquery" {
+        let mut f = if pos == "select_list" { format!("{}select_list/{}", p, name) } else { format!("{}{}", p, name) };
+        if pos != "select_list" && name == "scalar_subquery" {
             f.push_str("/where");
         }
         if is_correlated(q, specs) {
